@@ -19,6 +19,7 @@ from .. import rig as R, ref, gen, qcore
 from ..orch import h
 
 ID = "C13"
+TECHNIQUE = 'runtime monitoring - per (connection, subscription id) automaton fed from the boundary log; exhaustive symbol sequences to depth 3/4 under two pacings and consumers, random sequences to depth 40, failing stored queries, REQ bursts with default settings'
 LEVEL = "exploration"
 EXHAUSTIVE = {"quick": True, "thorough": True}
 RULE = (
